@@ -118,7 +118,8 @@ CHECKS = {
         rule="configuration (parent scope x 1-2 child kinds x 6 update methods x generateSelector x finalize hook x dynamic/server-side apply) x hook program (static 0-2, fromSpec, ordered StatefulSet-like, echoStatus) x initial cluster contents (two desired-name slots over {absent, owned, owned drifted, owned+foreign field, matching orphan, drifted orphan} x stale owned child x foreign-owned look-alike x same name in the other namespace) "
              "x stale-cache deviations (thorough: partial delivery in the first 0-2 rounds); each scenario is driven `sync; deliver; gc` to quiescence within N rounds, then one more sync; quick tier = a covering sub-product",
         units=[
-            dict(pkg=COMPOSITE, test="TestVerifC01", shards=dict(quick=16, thorough=16), budget=dict(quick=600, thorough=3300)),
+            dict(pkg=COMPOSITE, test="TestVerifC01", shards=dict(quick=12, thorough=16), budget=dict(quick=600, thorough=3300)),
+            dict(pkg=DECORATOR, test="TestVerifC01", shards=dict(quick=4, thorough=16), budget=dict(quick=600, thorough=3300)),
         ],
         assumptions=SIM_ASSUMPTIONS + ["server-side apply is the sim's model of SSA for schemaless custom resources (per-manager applied configuration, lists atomic, force)"],
     ),
